@@ -1054,12 +1054,20 @@ def gen_mesh(rng, ctx):
 
 def gen_polygon(rng, ctx, cls, axis_aligned=False):
     kinds_convex = ["convex", "rect", "triangle"]
-    if axis_aligned:
-        kind, p2 = gen.polygon2d(rng, "rect")
-    elif cls == "Polygon":
-        kind, p2 = gen.polygon2d(rng)
-    else:
-        kind, p2 = gen.polygon2d(rng, kinds_convex[int(rng.integers(3))])
+    while True:
+        if axis_aligned:
+            kind, p2 = gen.polygon2d(rng, "rect")
+        elif cls == "Polygon":
+            kind, p2 = gen.polygon2d(rng)
+        else:
+            kind, p2 = gen.polygon2d(rng, kinds_convex[int(rng.integers(3))])
+        # no straight corner anywhere: every cyclic shift / reversal must stay constructible (the normal is taken
+        # from the first corner; a straight first corner is the known C15 finding, not the subject here)
+        e1 = np.roll(p2, -1, axis=0) - p2
+        e2 = np.roll(p2, -2, axis=0) - np.roll(p2, -1, axis=0)
+        turn = np.abs(e1[:, 0] * e2[:, 1] - e1[:, 1] * e2[:, 0]) / (np.linalg.norm(e1, axis=1) * np.linalg.norm(e2, axis=1))
+        if turn.min() > 1e-3:
+            break
     plane = "xy" if (axis_aligned or rng.random() < 0.6) else "random"
     v, fr = gen.embed_polygon(rng, p2, plane=plane, offset_diams=(0.0 if rng.random() < 0.4 else None))
     orientation = "ccw"
